@@ -26,6 +26,9 @@ func gen(g *kernel.Rng, seed uint64, tier string) *kernel.Plan {
 	p.Cfg["rseg"] = int64(g.Pick(2, 2, 3, 2, 2))
 	p.Cfg["writer"] = int64(g.Pick(3, 2)) // 0 library muxer, 1 reference writer
 	p.Cfg["eofdata"] = int64(g.Pick(2, 1))
+	p.Cfg["sharedbuf"] = int64(g.Pick(1, 1)) // bodies handed over as consecutive sub-slices of one buffer
+	p.Cfg["twomux"] = int64(g.Pick(3, 1))    // a second muxer is used while a write of the first is in flight
+	p.Cfg["twomuxAt"] = int64(g.Range(0, 6))
 	n := g.Range(0, 12)
 	big := g.Bool(0.003)
 	total := int64(0)
@@ -109,6 +112,45 @@ func run(p *kernel.Plan) (res *kernel.Result) {
 	if p.C("writer") == 0 {
 		// library muxer onto the sim disk; the reference parser inspects the
 		// durable bytes after every write event
+		// the bodies as the application holds them: each its own slice, or
+		// consecutive sub-slices of one receive buffer (spare capacity behind each)
+		give := make([][]byte, len(want))
+		var shared []byte
+		if p.C("sharedbuf") != 0 {
+			for _, t := range want {
+				shared = append(shared, t.Body...)
+			}
+			off := 0
+			for i, t := range want {
+				give[i] = shared[off : off+len(t.Body)]
+				off += len(t.Body)
+			}
+			res.Stat("files_with_bodies_in_one_shared_buffer", 1)
+		} else {
+			for i, t := range want {
+				give[i] = append([]byte(nil), t.Body...)
+			}
+		}
+		// a second muxer with other header flags, on its own disk, used while a
+		// write call of the first one is in flight
+		var diskB *simnet.Pipe
+		var wantB []byte
+		if p.C("twomux") != 0 {
+			diskB = simnet.NewPipe("diskB", nil, tape)
+			diskB.NoYield, diskB.Record = true, true
+			bodyB := kernel.Fill(37, 4242)
+			wantB = append(ref.FLVWriteHeader(!hv, !ha), ref.FLVWriteTag(ref.FLVTag{Type: 18, Timestamp: 0x01020304, Body: bodyB})...)
+			at := int(p.C("twomuxAt"))
+			disk.OnWriteCall = func(idx int) {
+				if idx != at {
+					return
+				}
+				mb, _ := flv.NewMuxer(diskB)
+				mb.WriteHeader(!hv, !ha)
+				mb.WriteTag(flv.TagType(18), 0x01020304, bodyB)
+				res.Stat("second_muxer_used_during_a_write", 1)
+			}
+		}
 		mx, _ := flv.NewMuxer(disk)
 		if err := mx.WriteHeader(hv, ha); err != nil {
 			return res.Fail("C09/write-error", "WriteHeader: %v", err)
@@ -117,7 +159,7 @@ func run(p *kernel.Plan) (res *kernel.Result) {
 			return res.Fail("C09/layout-header", "after WriteHeader(%v,%v): parse=(%v,%v,%d tags,%v) bytes=% x", hv, ha, v, a, len(tg), err, disk.Wire)
 		}
 		for i, t := range want {
-			if err := mx.WriteTag(flv.TagType(t.Type), t.Timestamp, t.Body); err != nil {
+			if err := mx.WriteTag(flv.TagType(t.Type), t.Timestamp, give[i]); err != nil {
 				return res.Fail("C09/write-error", "WriteTag %d: %v", i, err)
 			}
 			// invariant on the durable bytes (for big files only every few tags)
@@ -137,6 +179,18 @@ func run(p *kernel.Plan) (res *kernel.Result) {
 			}
 		}
 		mx.Close()
+		if shared != nil {
+			off := 0
+			for i, t := range want {
+				if !bytes.Equal(shared[off:off+len(t.Body)], t.Body) {
+					return res.Fail("C09/caller-buffer-modified", "after the file was written the application's buffer no longer holds body %d as it was handed over", i)
+				}
+				off += len(t.Body)
+			}
+		}
+		if diskB != nil && disk.OnWriteCall != nil && int(p.C("twomuxAt")) < disk.St.Writes && !bytes.Equal(diskB.Wire, wantB) {
+			return res.Fail("C09/second-muxer-file", "the file of a second muxer used meanwhile differs from the reference bytes: % x", diskB.Wire[:min(len(diskB.Wire), 24)])
+		}
 		if !bytes.Equal(disk.Wire, refFile) {
 			return res.Fail("C09/bytes-differ-from-reference-writer", "library file (%d bytes) != reference file (%d bytes)", len(disk.Wire), len(refFile))
 		}
